@@ -5,3 +5,4 @@ import CR.Model.Gen
 import CR.Model.Validate
 import CR.Model.Batch
 import CR.Model.Report
+import CR.Model.Heap
